@@ -138,6 +138,9 @@ func evaluate(sc *scen.Scenario) error {
 	b, _ := json.Marshal(sc)
 	f := sc.Fault
 	cls := []string{"step:" + f.Step, fmt.Sprintf("fault:%s.%s:%s", f.Step, f.Field, f.Kind), "verdict:" + verdict}
+	if sc.Baseline != "" {
+		cls = append(cls, "baseline:"+sc.Baseline)
+	}
 	if f.Kind == "rpc_error" && len(sc.HSDCs) > 0 {
 		cls = append(cls, "fault:rpc_error-naming-a-configured-data-centre")
 	}
@@ -192,6 +195,21 @@ func build(src scen.Source, keys []refsrv.RSAKeyJSON, fc faultClass, bit int) (*
 	return sc, nil
 }
 
+// zeroBaseline makes the legitimate server_nonce (or, through the injection hook, the client's nonce) of the exchange zero.
+func zeroBaseline(sc *scen.Scenario, baseline string, src scen.Source, keys []refsrv.RSAKeyJSON, fc faultClass, bit int) {
+	switch baseline {
+	case "zero-server_nonce":
+		sc.HS.ServerNonce = make([]byte, 16)
+		sc.Baseline = baseline
+	case "zero-nonce":
+		if inj, err := scen.BuildHandshake(src, keys, scen.Corner{}, true); err == nil && inj.Draws != nil {
+			sc.Draws = inj.Draws
+			sc.Draws.Nonce = make([]byte, 16)
+			sc.Baseline = baseline
+		}
+	}
+}
+
 func TestC07(t *testing.T) {
 	keys, err := scen.KeyPool()
 	if err != nil {
@@ -234,38 +252,50 @@ func TestC07(t *testing.T) {
 				}
 				bits = append(bits, 0, fc.Bits-1)
 			}
-			for _, bit := range bits {
-				idx++
-				if idx%nsh != run.Shard {
-					continue
-				}
-				key := fc.Step + fc.Field + fc.Kind
-				if failedClass[key] {
-					continue // one reproduction per fault class is enough
-				}
-				sc, err := build(&detSource{seed: run.Seed*7 + uint64(idx)}, keys, fc, bit)
-				if err != nil {
-					t.Fatalf("INFRA: %v", err)
-				}
-				// the server considers the key established once it answered the last step: it may go on speaking
-				sc.Aftermath = []string{"", "new-session", "bad-salt", "update", "close", "app-reconnect"}[idx/nsh%6]
-				if fc.Step == "dhGen" {
-					// only after the last step does the server hold a key to speak with: every continuation is played by
-					// every run (this shard's k-th such case takes continuation k + shard)
-					sc.Aftermath = []string{"new-session", "bad-salt", "update", "close", "app-reconnect", ""}[(lastStep+run.Shard)%6]
-					lastStep++
-				}
-				if fc.Kind == "previous-exchange" {
-					sc.Aftermath = "app-reconnect"
-				}
-				n++
-				if err := evaluate(sc); err != nil {
-					if strings.HasPrefix(err.Error(), "INFRA:") {
-						t.Fatalf("%v", err)
+			// the same fault against a baseline in which the legitimate value of one nonce is zero (as good a random number
+			// as any other; a "not known yet" marker for some programs): one more case per class that does not substitute zero
+			baselines := []string{""}
+			if (fc.Field == "nonce" || fc.Field == "server_nonce") && (fc.Kind == "flip" || fc.Kind == "random" || fc.Kind == "other") {
+				baselines = append(baselines, "zero-server_nonce", "zero-nonce")
+			}
+			for bi, bit := range bits {
+				for _, baseline := range baselines {
+					if baseline != "" && bi != 0 {
+						continue
 					}
-					failedClass[key] = true
-					p := run.ViolationNamed(fmt.Sprintf("%s-%s-%s-%d", fc.Step, fc.Field, fc.Kind, bit), sc, err.Error())
-					t.Errorf("violation (replay %s): %v", p, err)
+					idx++
+					if idx%nsh != run.Shard {
+						continue
+					}
+					key := fc.Step + fc.Field + fc.Kind + baseline
+					if failedClass[key] {
+						continue // one reproduction per fault class is enough
+					}
+					sc, err := build(&detSource{seed: run.Seed*7 + uint64(idx)}, keys, fc, bit)
+					if err != nil {
+						t.Fatalf("INFRA: %v", err)
+					}
+					zeroBaseline(sc, baseline, &detSource{seed: run.Seed*7 + uint64(idx)}, keys, fc, bit)
+					// the server considers the key established once it answered the last step: it may go on speaking
+					sc.Aftermath = []string{"", "new-session", "bad-salt", "update", "close", "app-reconnect"}[idx/nsh%6]
+					if fc.Step == "dhGen" {
+						// only after the last step does the server hold a key to speak with: every continuation is played by
+						// every run (this shard's k-th such case takes continuation k + shard)
+						sc.Aftermath = []string{"new-session", "bad-salt", "update", "close", "app-reconnect", ""}[(lastStep+run.Shard)%6]
+						lastStep++
+					}
+					if fc.Kind == "previous-exchange" {
+						sc.Aftermath = "app-reconnect"
+					}
+					n++
+					if err := evaluate(sc); err != nil {
+						if strings.HasPrefix(err.Error(), "INFRA:") {
+							t.Fatalf("%v", err)
+						}
+						failedClass[key] = true
+						p := run.ViolationNamed(fmt.Sprintf("%s-%s-%s-%d%s", fc.Step, fc.Field, fc.Kind, bit, baseline), sc, err.Error())
+						t.Errorf("violation (replay %s): %v", p, err)
+					}
 				}
 			}
 		}
@@ -288,6 +318,9 @@ func TestC07(t *testing.T) {
 			// vary the baseline too: prime sizes, padding, g
 			if rapid.Bool().Draw(t, "otherprimes") {
 				sc.HS.P, sc.HS.Q = 65537, 4294967291
+			}
+			if (fc.Field == "nonce" || fc.Field == "server_nonce") && (fc.Kind == "flip" || fc.Kind == "random" || fc.Kind == "other") {
+				zeroBaseline(sc, rapid.SampledFrom([]string{"", "", "zero-server_nonce", "zero-nonce"}).Draw(t, "baseline"), rapidSource{t}, keys, fc, bit)
 			}
 			sc.Aftermath = rapid.SampledFrom([]string{"", "new-session", "bad-salt", "update", "close", "app-reconnect"}).Draw(t, "aftermath")
 			if fc.Kind == "previous-exchange" {
